@@ -240,7 +240,7 @@ func (vf *VFlow) forEachField(v ssa.Value, name string, f func(val ssa.Value), d
 		for _, ref := range *x.Referrers() {
 			switch y := ref.(type) {
 			case *ssa.FieldAddr:
-				if fieldVar(y.X.Type(), y.Field).Name() != name {
+				if fname(fieldVar(y.X.Type(), y.Field)) != name {
 					continue
 				}
 				for _, r2 := range *y.Referrers() {
